@@ -89,6 +89,23 @@ def _resume_position(ctx, rep):
 
 
 def check(ctx, rep):
+    # the file handles a session holds are of the kinds state.py knows how to save: buffered binary streams.  An unbuffered
+    # io.open(...) gives a raw FileIO, for which no pickler is registered -- suspend() fails while such a file is open
+    os_ = ctx.fn('pcbasic/basic/devices/disk.py:DiskDevice.open_stream')
+    opens = [c for c in own_nodes(os_) if isinstance(c, ast.Call) and norm(c.func) == 'io.open']
+    rep.floor('suspend.open-files-are-picklable-kinds', len(opens), 1, 'io.open calls in open_stream')
+    for c in opens:
+        raw = len(c.args) > 2 or any(k.arg == 'buffering' for k in c.keywords)
+        rep.ob('suspend.open-files-are-picklable-kinds', 'open_stream: %s opens a buffered stream' % short(c, 50), not raw,
+               'a buffering argument is passed: with 0 the handle is a raw FileIO, which state.py cannot save (TypeError in Session.suspend while the file is open)', ctx.where(c))
+    # after a resume the prompt is suppressed exactly when the session was NOT running a program (the resumed prompt is
+    # already on the screen); inside a running program the Ok at its end must still come
+    ss = ctx.fn('pcbasic/basic/implementation.py:Implementation.__setstate__')
+    fls = ctx.flow(ss)
+    pr = [a for a in own_nodes(ss) if isinstance(a, ast.Assign) and norm(a.targets[0]) == 'self._prompt' and norm(a.value) == 'False']
+    facts = [sorted((f.text, f.pol) for f in fls.facts(a)) for a in pr]
+    rep.ob('resume.prompt-suppressed-only-outside-a-program', '__setstate__ suppresses the prompt iff not interpreter.parse_mode',
+           facts == [[('self.interpreter.parse_mode', False)]], repr(facts), ctx.where(ss))
     # a file that was open for writing is rebuilt up to the recorded position only: what lies behind it in the file on disk was
     # written by close() at suspension (the 0x1A marker) and is not part of the stream
     uf = ctx.fn('pcbasic/basic/state.py:unpickle_file')
@@ -262,6 +279,12 @@ def variants(ctx):
         return lambda tree: f(mu.find_def(tree, path_fn))
 
     return [
+        mu.Variant('random-files-opened-unbuffered', 'break', 'pcbasic/basic/devices/disk.py',
+                   lambda tree: mu.replace_expr(mu.find_def(tree, 'DiskDevice.open_stream'), mu.text_is("io.open(native_name, access_mode + 'b')"), "io.open(native_name, access_mode + 'b', 0)"),
+                   expect='suspend.open-files-are-picklable-kinds'),
+        mu.Variant('prompt-suppressed-inside-a-running-program', 'break', 'pcbasic/basic/implementation.py',
+                   lambda tree: mu.replace_expr(mu.find_def(tree, 'Implementation.__setstate__'), mu.text_is('not self.interpreter.parse_mode'), 'self.interpreter.parse_mode'),
+                   expect='resume.prompt-suppressed-only-outside-a-program'),
         mu.Variant('writable-file-rebuilt-whole', 'break', 'pcbasic/basic/state.py',
                    lambda tree: mu.replace_expr(mu.find_def(tree, 'unpickle_file'), mu.text_is('f.read(pos)'), 'f.read()'), expect='resume.writable-file-rebuilt-to-position'),
         mu.Variant('redo-flag-lowered-on-the-wrong-object', 'break', 'pcbasic/basic/implementation.py',
